@@ -628,6 +628,10 @@ public:
         // 1. b -> Pb
         Scalar* x = b.data();
         MapVec res(x, m_n);
+        // 0. The factorized matrix is A / m_scale: solve (A / m_scale) x = b / m_scale.
+        // The right-hand side is scaled rather than the solution: the solution of
+        // (A / m_scale) y = b is m_scale * x, which can overflow although x is representable
+        res *= (RealScalar(1) / m_scale);
         Index npermc = m_permc.size();
         for (Index i = 0; i < npermc; i++)
         {
@@ -706,9 +710,6 @@ public:
         {
             std::swap(x[m_permc[i].first], x[m_permc[i].second]);
         }
-
-        // 6. The factorized matrix is A / m_scale
-        res *= (RealScalar(1) / m_scale);
     }
 
     Vector solve(ConstGenericVector& b) const
